@@ -207,7 +207,7 @@ theorem diffGitRef_of_eq (v : View) (git : Git) (k : Key) (h : v.gitRefs k = ofO
   | some c => simp [hc] at h; simp [h]
 
 /-- the keys of a `filterMap` whose results remember their key are a sublist of the keys -/
-theorem map_key_filterMap_sublist {ι : Type} (keys : List Key) (f : Key → Option ι) (key : ι → Key)
+theorem map_key_filterMap_sublist {κ ι : Type} (keys : List κ) (f : κ → Option ι) (key : ι → κ)
     (hk : ∀ k i, f k = some i → key i = k) : ((keys.filterMap f).map key).Sublist keys := by
   induction keys with
   | nil => simp
